@@ -34,6 +34,9 @@ enum Prefixing {
     /// the root binds prefix `p` to A; the referring component alone rebinds `p` to B (xmlns:p on the
     /// component), and a component declared after it uses `p` again (meaning A)
     ShadowedOnComponent,
+    /// the prefix of the reference is declared on the LOCAL element that carries it
+    /// (`<xs:element name="Uses" type="q1:Thing" xmlns:q1="…"/>`, the .NET/WCF style)
+    DeclaredOnLocalElement,
 }
 
 fn build(kind: Kind, target_b: bool, prefixing: Prefixing, user_first: bool, decoys: bool, same_name_chain: bool, elem_first: bool, idiom: bool) -> SchemaSet {
@@ -78,7 +81,7 @@ fn build(kind: Kind, target_b: bool, prefixing: Prefixing, user_first: bool, dec
     let elem_a = if idiom {
         typed_element("Thing", TypeRef::n(NS_A, "Thing"))
     } else if same_name_chain {
-        anon_element("Thing", vec![el("MarkElemA", TypeRef::b("string")), Particle::Ref(ElemRef { target: QName::new(NS_B, "Thing"), min: 0, max: Max::N(1) })])
+        anon_element("Thing", vec![el("MarkElemA", TypeRef::b("string")), Particle::Ref(ElemRef { target: QName::new(NS_B, "Thing"), min: 0, max: Max::N(1), xmlns: vec![] })])
     } else {
         anon_element("Thing", vec![el("MarkElemA", TypeRef::b("string"))])
     };
@@ -90,17 +93,24 @@ fn build(kind: Kind, target_b: bool, prefixing: Prefixing, user_first: bool, dec
         ..Default::default()
     });
     // B uses its own Thing through its own prefix (tns in the clash situation)
-    let uses_own_b = complex("UsesOwnB", vec![el("OwnThing", TypeRef::Named(own_b("Thing"))), Particle::Ref(ElemRef { target: own_b("Thing"), min: 0, max: Max::N(1) })]);
+    let uses_own_b = complex("UsesOwnB", vec![el("OwnThing", TypeRef::Named(own_b("Thing"))), Particle::Ref(ElemRef { target: own_b("Thing"), min: 0, max: Max::N(1), xmlns: vec![] })]);
     s.files[1].comps.extend([part_b, type_b, elem_b, uses_own_b]);
     let tns = if target_b { NS_B } else { NS_A };
     let mut q = QName::new(tns, "Thing");
     if (prefixing == Prefixing::Default && !target_b) || (prefixing == Prefixing::DefaultIsImported && target_b) {
         q.prefer = Some(String::new());
     }
+    let local_decl: Vec<(String, String)> = if prefixing == Prefixing::DeclaredOnLocalElement { vec![("q1".into(), tns.to_string())] } else { vec![] };
     let user = match kind {
+        Kind::Type if prefixing == Prefixing::DeclaredOnLocalElement => {
+            let mut e = Elem::new("Uses", TypeRef::Named(q));
+            e.xmlns = local_decl.clone();
+            complex("User", vec![Particle::Elem(e), el("UserMark", TypeRef::b("string"))])
+        }
+        Kind::Ref if prefixing == Prefixing::DeclaredOnLocalElement => complex("User", vec![Particle::Ref(ElemRef { target: q, min: 1, max: Max::N(1), xmlns: local_decl.clone() }), el("UserMark", TypeRef::b("string"))]),
         Kind::Type => complex("User", vec![el("Uses", TypeRef::Named(q)), el("UserMark", TypeRef::b("string"))]),
         Kind::Base => Comp::Complex(ComplexType { name: "User".into(), base: Some(q), seq: Some(Seq::of(vec![el("UserMark", TypeRef::b("string"))])), ..Default::default() }),
-        Kind::Ref => complex("User", vec![Particle::Ref(ElemRef { target: q, min: 1, max: Max::N(1) }), el("UserMark", TypeRef::b("string"))]),
+        Kind::Ref => complex("User", vec![Particle::Ref(ElemRef { target: q, min: 1, max: Max::N(1), xmlns: vec![] }), el("UserMark", TypeRef::b("string"))]),
     };
     let mut user = user;
     if prefixing == Prefixing::ShadowedOnComponent {
@@ -134,7 +144,7 @@ fn xsd_states() -> Vec<(State, Vec<(&'static str, String)>)> {
     let mut out = vec![];
     for kind in [Kind::Type, Kind::Base, Kind::Ref] {
         for target_b in [false, true] {
-            for prefixing in [Prefixing::Own, Prefixing::TnsClash, Prefixing::Default, Prefixing::DefaultIsImported, Prefixing::SwappedAbbreviations, Prefixing::ShadowedOnComponent] {
+            for prefixing in [Prefixing::Own, Prefixing::TnsClash, Prefixing::Default, Prefixing::DefaultIsImported, Prefixing::SwappedAbbreviations, Prefixing::ShadowedOnComponent, Prefixing::DeclaredOnLocalElement] {
                 for user_first in [false, true] {
                     for (decoys, chain, elem_first, idiom) in [(false, false, false, false), (true, false, false, false), (false, true, false, false), (true, true, false, false), (false, false, true, false), (true, true, true, false), (false, false, true, true), (false, false, false, true), (true, true, true, true)] {
                         let set = build(kind, target_b, prefixing, user_first, decoys, chain, elem_first, idiom);
@@ -169,7 +179,7 @@ fn cyclic_import_states() -> Vec<(State, Vec<(&'static str, String)>)> {
             s.files[1].imports.push(Import { ns: NS_A.into(), loc: Some("a.xsd".into()) });
             let referrer = match kind {
                 Kind::Base => Comp::Complex(ComplexType { name: "InBUsesA".into(), base: Some(QName::new(NS_A, "Thing")), seq: Some(Seq::of(vec![el("OwnInB", TypeRef::b("string"))])), ..Default::default() }),
-                _ => complex("InBUsesA", vec![Particle::Ref(ElemRef { target: QName::new(NS_A, "Thing"), min: 0, max: Max::N(1) }), el("OwnInB", TypeRef::b("string"))]),
+                _ => complex("InBUsesA", vec![Particle::Ref(ElemRef { target: QName::new(NS_A, "Thing"), min: 0, max: Max::N(1), xmlns: vec![] }), el("OwnInB", TypeRef::b("string"))]),
             };
             if own_thing_first {
                 s.files[1].comps.push(referrer);
@@ -215,7 +225,7 @@ fn two_referrer_states() -> Vec<(State, Vec<(&'static str, String)>)> {
             s.files[0].comps.clear();
             let type_a = complex("Thing", vec![el("MarkTypeA", TypeRef::b("string"))]);
             let elem_a = if idiom { typed_element("Thing", TypeRef::n(NS_A, "Thing")) } else { anon_element("Thing", vec![el("MarkElemA", TypeRef::b("string"))]) };
-            let ref_user = complex("User", vec![Particle::Ref(ElemRef { target: QName::new(NS_A, "Thing"), min: 1, max: Max::N(1) }), el("UserMark", TypeRef::b("string"))]);
+            let ref_user = complex("User", vec![Particle::Ref(ElemRef { target: QName::new(NS_A, "Thing"), min: 1, max: Max::N(1), xmlns: vec![] }), el("UserMark", TypeRef::b("string"))]);
             let base_user = Comp::Complex(ComplexType { name: "BaseUser".into(), base: Some(QName::new(NS_A, "Thing")), seq: Some(Seq::of(vec![el("BaseUserMark", TypeRef::b("string"))])), ..Default::default() });
             let comps = [ref_user, base_user, elem_a, type_a];
             let names = ["ref-user", "base-user", "element", "type"];
@@ -349,7 +359,7 @@ pub fn check(tier: &str) -> i32 {
     rep.set("traces_validated_against_impl", json!(n));
     rep.set("states_fully_conformant", json!(conformant));
     rep.set("exhaustive", json!(true));
-    rep.set("bound", json!("complete product: reference kind {type=, base=, ref=} x target namespace {own, imported} x prefixing {own prefixes, the prefix tns bound to different URIs in the two files, default namespace, default namespace = imported namespace, each prefix spelling the other namespace's generated abbreviation, a prefix of the root rebound on the referring component only and used again after it} x declaration order {before, after use} x decoys {absent, a local element and an attribute named Thing} x {type Thing before element Thing, element first} x {element Thing of an anonymous type, element Thing of type Thing} x {A's Thing carriers independent, built on B's Thing carriers (same local name along the chain)}; two referrers of different kinds (ref= and base=) to one name in all 24 declaration orders x 2 element forms; WSDL: part element= {WSDL's, imported namespace} x parts {explicit, absent} with message and part named Thing; the imported file also refers to its own Thing through its own prefix"));
+    rep.set("bound", json!("complete product: reference kind {type=, base=, ref=} x target namespace {own, imported} x prefixing {own prefixes, the prefix tns bound to different URIs in the two files, default namespace, default namespace = imported namespace, each prefix spelling the other namespace's generated abbreviation, a prefix of the root rebound on the referring component only and used again after it, a prefix declared on the local element that uses it} x declaration order {before, after use} x decoys {absent, a local element and an attribute named Thing} x {type Thing before element Thing, element first} x {element Thing of an anonymous type, element Thing of type Thing} x {A's Thing carriers independent, built on B's Thing carriers (same local name along the chain)}; two referrers of different kinds (ref= and base=) to one name in all 24 declaration orders x 2 element forms; WSDL: part element= {WSDL's, imported namespace} x parts {explicit, absent} with message and part named Thing; the imported file also refers to its own Thing through its own prefix"));
     let _ = tier;
     rep.assume("a carrier is identified by the namespace its struct declares and its unique marker member");
     rep.finish()
